@@ -26,15 +26,18 @@ from harness.core import Ctx, Evidence, Failure, HarnessError, pmap, campaign, s
 from harness import refarglist as R
 
 LEVEL = 'exploration'
-RULE = ('(1) exhaustive: every sequence of <=D operations over {+= batch of 1..2 args, append_direct arg, read, '
-        'copy-then-continue-on-copy, copy-then-continue-on-original} for an alphabet of one argument per kind '
-        '(-Ia -Ib -DA -isystemS -lx -O2 and a stand-alone -D), from several initial lists, plus deeper/wider variants; '
-        '(2) Hypothesis: JSON op lists of 1..30 steps over 36 arguments (a 2..8 argument sub-alphabet per case so that '
-        'duplicates collide) with +=, append, extend (list/generator/other CompilerArgs), +, reflected +, copy, '
-        'copy-constructor, append_direct, extend_direct, extend_preserving_lflags, insert, []=, del, remove, pop and '
-        'the reads list/iter/[]/slice/==/in/count/index/to_native(copy=True) on up to 4+ live objects, to_native() as '
-        'terminal step; real list compared with the eager reference at every read and at the end for every object; '
-        '(3) generated meson projects, ARGS of build.ninja against the same project with every duplicate renamed apart. '
+RULE = ('(1) exhaustive: every sequence of exactly d operations, d=1..D, over {+= batch of 1..2 args, append_direct arg, read, '
+        'copy-then-continue-on-copy, copy-then-continue-on-original} for an alphabet with one or two arguments per kind '
+        '(a7 = -Ia -Ib -DA -isystemS -lx -O2 and a stand-alone -D; quick: D=3 from 3 initial lists (empty, de-duplicated, raw duplicates) '
+        'plus D=4 over 5 arguments; thorough: D=4 over a7, D=5 over 4 arguments, D=3 over 11 arguments); '
+        '(2) JSON op lists of 1..30 steps over 33 arguments (a 2..8 argument sub-alphabet per case so that duplicates collide), '
+        'once as a Hypothesis strategy (collect-then-shrink) and once from a seeded random.Random generator (ddmin shrink) for volume: '
+        '+=, append, extend (list/generator/other CompilerArgs), +, reflected +, copy, copy-constructor, append_direct, extend_direct, '
+        'extend_preserving_lflags, insert, []=, del, remove, pop and the reads list/iter/[]/slice/==/in/count/index/to_native(copy=True) '
+        'on all live objects (every copy stays alive and keeps being used), to_native() as terminal step; the real list is compared with '
+        'the eager reference at every read and at the end for every object, so copies are checked for independence; '
+        '(3) generated meson projects (same -D/-U/-I at project, global, c_args option, dependency and target level), ARGS of the compile '
+        'edge in build.ninja against the twin project with every occurrence renamed apart. '
         'non-trivial = some object received >=2 contract writes without an intervening read (lazy path) and one of them '
         'added an override-type argument that was already present (or twice in the batch); e2e: an override-type argument '
         'given at >=2 levels.  distinct by sha1 of the normalised op list (enumerations are duplicate-free by construction).')
@@ -224,7 +227,7 @@ def normalise(case: dict) -> T.Tuple[dict, T.List[str]]:
 # running one case
 
 class _Slot:
-    __slots__ = ('real', 'ref', 'pending', 'dup', 'dead', 'unread')
+    __slots__ = ('real', 'ref', 'pending', 'dup', 'dead', 'unread', 'plain')
 
     def __init__(self, real: T.Any, ref: R.RefArgs, pending: int = 0, dup: bool = False):
         self.real = real
@@ -233,6 +236,7 @@ class _Slot:
         self.dup = dup             # one of them re-added an override-type argument
         self.dead = False
         self.unread = False        # written to since the last read of the whole list
+        self.plain: T.Optional[T.List[str]] = None   # non-dedupable arguments in the order supplied (None: raw edits happened)
 
 
 def _diff_sig(real: T.List[str], ref: T.List[str], kind: T.Callable[[str], str]) -> str:
@@ -263,6 +267,10 @@ def _execute(case: dict, eager: bool = False, info: T.Optional[dict] = None, rea
     kind = R.kind_clike if cls == 'clike' else R.kind_base
     slots = [_Slot(make_real(cls, list(case['init'])), R.RefArgs(kind, case['init']))]
     supplied = set(case['init'])
+
+    def pl(xs: T.Iterable[str]) -> T.List[str]:
+        return [a for a in xs if kind(a) == R.PLAIN]
+    slots[0].plain = pl(case['init'])
     nontrivial = False
     lazy_reads = 0
 
@@ -280,6 +288,12 @@ def _execute(case: dict, eager: bool = False, info: T.Optional[dict] = None, rea
         inv = [a for a in got if a not in supplied]
         if inv:
             raise _Mismatch('list/invented', f'{where}: {inv} were never supplied')
+        # last sentence of the property, checked on its own (independent of RefArgs): arguments that cannot be
+        # de-duplicated keep their relative order and multiplicity.  real == reference at this point, so a
+        # failure here means the reference model contradicts the property.
+        if s.plain is not None and pl(got) != s.plain:
+            raise HarnessError(f'reference model breaks "non-dedupable arguments keep order and multiplicity": {where}: '
+                               f'{pl(got)} vs supplied {s.plain} in {case}')
 
     def note_write(s: _Slot, batch: T.Sequence[str], before: T.Sequence[str]) -> None:
         s.pending += 1
@@ -483,6 +497,27 @@ def _execute(case: dict, eager: bool = False, info: T.Optional[dict] = None, rea
             raise
         except Exception as e:   # the list class itself must not raise on these operations
             raise _Mismatch(f'raises/{type(e).__name__}:{name}', f'{where}: raised {e!r}')
+        if name in ('iadd', 'extend', 'extend_iter', 'extend_direct', 'preserving'):
+            if s.plain is not None:
+                s.plain = s.plain + pl(op[2])
+        elif name in ('append', 'append_direct'):
+            if s.plain is not None:
+                s.plain = s.plain + pl([op[2]])
+        elif name in ('iadd_ca', 'add_ca'):
+            o = slots[op[2] % (len(slots) - (1 if name == 'add_ca' else 0))]
+            both = None if (s.plain is None or o.plain is None) else s.plain + o.plain
+            if name == 'iadd_ca':
+                s.plain = both
+            else:
+                slots[-1].plain = both
+        elif name == 'add':
+            slots[-1].plain = None if s.plain is None else s.plain + pl(op[2])
+        elif name == 'radd':
+            slots[-1].plain = None if s.plain is None else pl(op[2]) + s.plain
+        elif name in ('copy', 'ctor'):
+            slots[-1].plain = None if s.plain is None else list(s.plain)
+        elif name in RAW_W:
+            s.plain = None
         if name in CONTRACT_W or name in DIRECT_W or name in RAW_W:
             s.unread = True
         elif name in READS:
@@ -834,13 +869,15 @@ def enum_shards(ctx: Ctx) -> T.List[tuple]:
         plan += [('a7', d, ENUM_ALPHA7, ENUM_INITS) for d in (1, 2, 3)]
         plan += [('a5', 4, ENUM_ALPHA5, ENUM_INITS[:1])]
     else:
-        plan += [('a7', d, ENUM_ALPHA7, ENUM_INITS) for d in (1, 2, 3, 4)]
+        plan += [('a7', d, ENUM_ALPHA7, ENUM_INITS) for d in (1, 2, 3)]
+        plan += [('a7', 4, ENUM_ALPHA7, [ENUM_INITS[0], ENUM_INITS[2]])]
         plan += [('a4', 5, ENUM_ALPHA4, ENUM_INITS[:1])]
         plan += [('a11', d, ENUM_ALPHA11, ENUM_INITS) for d in (1, 2, 3)]
     shards = []
     for tag, depth, alpha, inits in plan:
         nops = len(enum_ops(alpha, 2))
-        for ii, init in enumerate(inits):
+        for init in inits:
+            ii = ENUM_INITS.index(init)
             per = 1 if depth >= 4 else (4 if depth == 3 else nops)
             for lo in range(0, nops, per):
                 shards.append((f'{tag}-d{depth}-init{ii}', depth, list(range(lo, min(nops, lo + per))), alpha, init))
@@ -1072,11 +1109,11 @@ def selftest(ctx: Ctx) -> None:
 def run(ctx: Ctx) -> None:
     get_env()          # before forking: every worker inherits the one detected compiler object
     pmap(ctx, _enum_shard, enum_shards(ctx))
-    nper = ctx.n(400, 5000)
+    nper = ctx.n(400, 3000)
     pmap(ctx, _campaign_shard, [(s, nper) for s in shard_seeds(ctx, 16)])
-    nrand = ctx.n(12000, 150000)
+    nrand = ctx.n(12000, 80000)
     pmap(ctx, _random_shard, [(s + 104729, nrand) for s in shard_seeds(ctx, 16)])
-    ne2e = ctx.n(2, 16)
+    ne2e = ctx.n(2, 12)
     pmap(ctx, _e2e_shard, [(s + 7919, ne2e) for s in shard_seeds(ctx, 16)])
     ctx.exhaustive = True
     ctx.ev.extra['exhaustive_scope'] = ('op sequences of the enumeration shards (see class_histogram enum/*) are enumerated completely; '
